@@ -116,6 +116,9 @@ class IterModel:
             if act['op'] == 'set_value':
                 self.m.set_value(W.addr(act['n']), W.py_val_scaled(act['v'], self.scale))
                 return 'ok', None, None
+            # what every formula cell held before the call (None: never calculated)
+            self.before = {a.split('!')[1]: c._value for a, c in self.m.cell_map.items()
+                           if hasattr(c, '_value') and c.formula}
             _IterativeEvalTracker.inc_iteration_number = counting
             prev_sink = _verif.set_sink(sink)
             try:
@@ -172,20 +175,29 @@ def job(arg):
                 out['violations'].append((
                     f'evaluate({act["n"]}, iterations={n_it}) performed {len(passes)} passes '
                     f'[{name}]', case))
-            # 2. honest stop
-            if len(passes) < n_it and len(passes) >= 2:
+            # 2. honest stop: the previous value of a cell is what it held after the
+            #    pass before, or before the call; "no value yet" counts as a change
+            if len(passes) < n_it and len(passes) >= 1:
                 out['early_stops'] += 1
-                last, before = passes[-1], passes[-2]
+                last = passes[-1]
+                before = passes[-2] if len(passes) >= 2 else {}
                 for c, v in last.items():
-                    pv = before.get(c)
-                    if isinstance(v, (int, float)) and isinstance(pv, (int, float)) \
+                    pv = before.get(c, model.before.get(c)) if len(passes) >= 2 \
+                        else model.before.get(c)
+                    if isinstance(v, tuple):
+                        continue
+                    if pv is None:
+                        out['violations'].append((
+                            f'evaluate({act["n"]}) stopped after {len(passes)} < {n_it} passes '
+                            f'although {c} got its first value {v!r} in the last pass [{name}]', case))
+                    elif isinstance(v, (int, float)) and isinstance(pv, (int, float)) \
                             and not isinstance(v, bool):
                         if abs(v - pv) >= (1 + 1e-5) * tol:
                             out['violations'].append((
                                 f'evaluate({act["n"]}) stopped after {len(passes)} < {n_it} passes '
                                 f'although {c} moved from {pv!r} to {v!r} (> tolerance {tol}) '
                                 f'[{name}]', case))
-                    elif v != pv and not isinstance(v, tuple):
+                    elif v != pv:
                         out['violations'].append((
                             f'evaluate({act["n"]}) stopped after {len(passes)} < {n_it} passes '
                             f'although {c} changed from {pv!r} to {v!r} [{name}]', case))
